@@ -1,5 +1,5 @@
 (* Correspondence for C09 (uamiv stream): reference codec <-> library, both directions. *)
-From PNC Require Export Base.Util Base.Words Model.Uamiv Model.Lbdy.
+From PNC Require Export Base.Util Base.Words Model.Uamiv Model.Lbdy Model.One3d.
 Local Open Scope Z_scope.
 
 Record ucase := Case {
@@ -161,7 +161,59 @@ Definition lb_year_end (l : lbdy) (hours : list (Z * Z)) : bool :=
 Definition lregion (c : lcase) : nat :=
   if lwhole c && lb_year_end (lc_l c) (lc_hours c) then 1%nat else 0%nat.
 
+(* Fourth kind of case: the one3d family (one3d / humidity / vertical_diffusivity), Model/One3d.v. *)
+Record ocase := OCase {
+  oc_c : one3d;                        (* the generated content *)
+  oc_hhmm : list Z;                    (* HHMM of each step as an integer (the time word is its binary32 pattern) *)
+  oc_ref : list word;                  (* file produced by the Python reference encoder (camxfmt.records) *)
+  oc_cut : Z;                          (* number of BYTES of oc_ref given to the library *)
+  oc_open_ok : bool;                   (* library Memmap reader opened the file AND the data variable could be read *)
+  oc_view : oview;                     (* what it presented (zeros when it raised) *)
+  oc_tflag : list (Z * Z);             (* TFLAG[:,0,:] *)
+  oc_py_ok : bool;                     (* judged in Python: variable name, array shape (TSTEP, LAY, ROW, COL) *)
+  oc_w_ok : bool;                      (* library writer returned (whole files only) *)
+  oc_written : list word               (* what ncf2one3d produced from the opened file *)
+}.
+Definition oview_eqb (a b : oview) : bool :=
+  (ov_nx a =? ov_nx b) && (ov_ny a =? ov_ny b) && (ov_nz a =? ov_nz b) && (ov_ntimes a =? ov_ntimes b)
+  && list_eqb pair_eqb (ov_stamps a) (ov_stamps b) && zlll_eqb (ov_data a) (ov_data b).
+Definition ostep_eqb (a b : ostep) : bool :=
+  (os_time a =? os_time b) && (os_date a =? os_date b) && zll_eqb (os_lays a) (os_lays b).
+Definition one3d_eqb (a b : one3d) : bool :=
+  (o_nx a =? o_nx b) && (o_ny a =? o_ny b) && (o_nz a =? o_nz b) && list_eqb ostep_eqb (o_steps a) (o_steps b).
+Definition o_dates (c : one3d) : list Z := map os_date (o_steps c).
+Definition owhole (c : ocase) : bool := oc_cut c =? 4 * Z.of_nat (length (oc_ref c)).
+Definition ogiven (c : ocase) : list word := firstn (Z.to_nat (oc_cut c / 4)) (oc_ref c).
+
+(* F: reference encoder == Coq spec encoder; the Memmap reader model (called with the content's rows, cols) predicts
+   the library incl. raising; the writer writes exactly the records of the content *)
+Definition ocheckF (c : ocase) : bool :=
+  zlist_eqb (o_enc (oc_c c)) (oc_ref c)
+  && match o_mm_read (o_ny (oc_c c)) (o_nx (oc_c c)) (ogiven c) (oc_cut c) with
+     | Ok v => oc_open_ok c && oview_eqb v (oc_view c)
+               && list_eqb pair_eqb (o_tflag (map snd (ov_stamps v)) (firstn (length (ov_stamps v)) (oc_hhmm c))) (oc_tflag c)
+               && (negb (owhole c) || (oc_w_ok c && zlist_eqb (oc_written c) (o_enc (oc_c c))))
+     | Err => negb (oc_open_ok c)
+     end.
+Definition ocheckS (c : ocase) : bool :=
+  if owhole c then
+    oc_py_ok c && oc_open_ok c && oview_eqb (oc_view c) (o_view_of (oc_c c))
+    && list_eqb pair_eqb (oc_tflag c) (o_spec_tflag (o_dates (oc_c c)) (oc_hhmm c))
+    && oc_w_ok c
+    && match o_dec (o_nx (oc_c c)) (o_ny (oc_c c)) (o_nz (oc_c c)) (oc_written c) with
+       | Some c' => one3d_eqb c' (oc_c c) | None => false end
+  else
+    negb (oc_open_ok c)
+    || (let k := Z.to_nat (ov_ntimes (oc_view c)) in
+        oc_py_ok c && (0 <? ov_ntimes (oc_view c)) && (Z.of_nat k <=? Z.of_nat (length (o_steps (oc_c c))))
+        && oview_eqb (oc_view c) (o_view_of (o_truncate_steps k (oc_c c)))
+        && list_eqb pair_eqb (oc_tflag c) (firstn k (o_spec_tflag (o_dates (oc_c c)) (oc_hhmm c)))).
+(* region 11: a single-step file (the layer count is inferred from the first change of time stamp) *)
+Definition oregion (c : ocase) : nat :=
+  if owhole c && (Z.of_nat (length (o_steps (oc_c c))) <? 2) then 11%nat else 0%nat.
+
 Inductive case_t :=
+| OD (c : ocase)
 | U (c : ucase)
 | R (ref : list word) (recs : list (list word)) (w_ok : bool) (written : list word)
 | L (c : lcase).
@@ -174,4 +226,5 @@ Definition check (c : case_t) : verdict :=
        if w_ok then match unframe_all written with Some rs => zll_eqb rs recs | None => false end else true,
        0%nat)
   | L c => (lcheckF c, lcheckS c, lregion c)
+  | OD c => (ocheckF c, ocheckS c, oregion c)
   end.
